@@ -187,6 +187,9 @@ def check_distance_matcher(ctx, rules=("PATHCOUNT", "TIME", "INDEX", "GREEDY", "
     elif "GREEDY" in rules:
         ctx.violate("GREEDY", site, (fi, cd), "links are not chosen as the globally closest remaining pair (no arg-min over the whole distance matrix): with distinct distances the result differs from repeatedly joining the closest pair")
     if not pair:
+        if "INDEX" in rules and "GREEDY" not in rules:
+            ctx.violate("INDEX", site + ":link", (fi, cd), "the (track, droplet) index pair of a link is not taken from the arg-min of the remaining distance matrix "
+                        "(np.unravel_index(np.argmin(D), D.shape)): index pairs computed ahead of the row/column invalidation go stale, so a droplet or a track can be linked twice")
         return
     r, c_ = pair
     # ---- INDEX: r ↔ rows ↔ alive tracks, c ↔ columns ↔ frame droplets
